@@ -227,7 +227,8 @@ def replay(opt: str, histories: list[list], refs: dict) -> list[dict]:
                     if o is None:
                         continue
                     task = T.build_task(TASKS[x])
-                    t0 = json.dumps(task.model_dump(), sort_keys=True, default=repr)
+                    from .corpus import _dump_model
+                    t0 = _dump_model(task)
                     c0 = dump_cfg(caller)
                     e["t"] = x
                     e["cfgid"] = iid(dump_cfg(o.configuration))
@@ -242,7 +243,7 @@ def replay(opt: str, histories: list[list], refs: dict) -> list[dict]:
                         e["msg"] = str(ex)[:200]
                     e["cfgafter"] = iid(dump_cfg(o.configuration))
                     e["caller_same"] = dump_cfg(caller) == c0
-                    e["task_same"] = json.dumps(task.model_dump(), sort_keys=True, default=repr) == t0
+                    e["task_same"] = _dump_model(task) == t0
                     e["earlier_same"] = all(digest(r) == d0 for r, d0 in returned)
                 elif a == "OptimizeBadCall":
                     if o is None or o.configuration is None:
